@@ -9,6 +9,7 @@ import (
 	"fmt"
 	"math/big"
 	"math/rand"
+	"os"
 	"testing"
 
 	"github.com/canopy-network/canopy/fsm"
@@ -171,7 +172,9 @@ func runCase(t *testing.T, run *core.Run, name string, idx int, rng *rand.Rand) 
 		mint := mintRef(h, nd.Cfg, prev, params, map[uint64]bool{}, 1)
 		var daoMint uint64
 		for _, tx := range rec.Block.Transactions {
-			if ti, ok := byHash[hashOf(tx)]; ok && ti.Kind == "dao-transfer" {
+			// (by content, not by the generator's label: an 'invalid replay-of-earlier-tx' may be the first inclusion of an
+			// earlier - or the same block's - DAO transfer; what is in the block was executed)
+			{
 				t2 := new(lib.Transaction)
 				if lib.Unmarshal(tx, t2) == nil {
 					if m, e := lib.FromAny(t2.Msg); e == nil {
@@ -199,6 +202,15 @@ func runCase(t *testing.T, run *core.Run, name string, idx int, rng *rand.Rand) 
 		delta := new(big.Int).Sub(cur.total, prev.total)
 		// upper bound: nothing is created beyond the schedule and approved DAO mints
 		if delta.Cmp(created) > 0 {
+			if os.Getenv("C04_DEBUG") != "" {
+				for _, tx := range rec.Block.Transactions {
+					ti, ok := byHash[hashOf(tx)]
+					t2 := new(lib.Transaction)
+					_ = lib.Unmarshal(tx, t2)
+					fmt.Fprintf(dbgFile(), "C04DBG h=%d tx=%s known=%v kind=%s note=%s type=%s\n", h, hashOf(tx)[:8], ok, ti.Kind, ti.Note, t2.MessageType)
+				}
+				fmt.Fprintf(dbgFile(), "C04DBG prev pools=%v\nC04DBG cur pools=%v\n", prev.poolByID, cur.poolByID)
+			}
 			run.Violation("supply-created-beyond-schedule", "^"+name+"$", map[string]any{"case": name, "height": h, "delta_total": delta.String(), "scheduled_mint": mint, "dao_mints": daoMint, "history_tail": tail(history, 40)})
 			return
 		}
@@ -220,7 +232,7 @@ func runCase(t *testing.T, run *core.Run, name string, idx int, rng *rand.Rand) 
 		}
 		// subsidies of this block also land in reward pools
 		for _, tx := range rec.Block.Transactions {
-			if ti, ok := byHash[hashOf(tx)]; ok && ti.Kind == "subsidy" {
+			{
 				t2 := new(lib.Transaction)
 				if lib.Unmarshal(tx, t2) == nil {
 					if m, e := lib.FromAny(t2.Msg); e == nil {
@@ -309,4 +321,9 @@ func TestCheck(t *testing.T) {
 			runCase(t, run, name, i, run.Rand(name))
 		}
 	})
+}
+
+func dbgFile() *os.File {
+	f, _ := os.OpenFile(os.Getenv("C04_DEBUG"), os.O_CREATE|os.O_APPEND|os.O_WRONLY, 0o644)
+	return f
 }
